@@ -3,6 +3,7 @@
 mod common;
 mod c02;
 mod c09;
+mod c13;
 mod c19;
 
 use common::Ctx;
@@ -41,6 +42,7 @@ fn main() {
         match prop {
             "C02" | "C03" => c02::generate(&mut ctx),
             "C09" => c09::generate(&mut ctx),
+            "C13" => c13::generate(&mut ctx),
             "C19" => c19::generate(&mut ctx),
             _ => {
                 eprintln!("unknown property {prop}");
@@ -61,5 +63,5 @@ fn dispatch_replay(ctx: &mut Ctx, f: &[&str]) -> bool {
     if f.is_empty() {
         return false;
     }
-    c19::replay(ctx, f) || c09::replay(ctx, f) || c02::replay(ctx, f)
+    c19::replay(ctx, f) || c09::replay(ctx, f) || c02::replay(ctx, f) || c13::replay(ctx, f)
 }
